@@ -72,6 +72,7 @@ const (
 	vpCauseValidation      // record carries a later incarnation's token, refreshes hang, validation notices
 	vpCauseHealth
 	vpCausePreemptSeen // replaced AND the watch notification arrives before the next heartbeat
+	vpCauseDeletedSeen // deleted AND the watch notification arrives before the next heartbeat
 	vpCauseStop
 	vpCauseStopCtx
 	vpCauseStopCtxDelete
@@ -91,6 +92,9 @@ func (s *vpTermScn) endTerm(cause int) {
 		s.st.noEvents = true
 		s.st.write("env:other", "delete", nil, true, 0)
 		s.st.noEvents = false
+		time.Sleep(H + H/2)
+	case vpCauseDeletedSeen:
+		s.st.write("env:other", "delete", nil, true, 0)
 		time.Sleep(H + H/2)
 	case vpCauseUnreachable:
 		s.kv.faults = []int{vpFaultErr}
@@ -210,11 +214,11 @@ func vpC08Causes(fixedRand bool) {
 		vpEndPath("health-script-kept-leader")
 	}
 	vpCover("C08.cause")
-	if cause == vpCauseConflict || cause == vpCausePreemptSeen || cause == vpCauseDeleted {
+	if cause == vpCauseConflict || cause == vpCausePreemptSeen || cause == vpCauseDeleted || cause == vpCauseDeletedSeen {
 		// C03: one heartbeat interval plus two time-outs after the change the instance has stepped down and run OnDemote
 		vpAssert("C03.demote-after-change", s.cb.demotes >= 1)
 	}
-	if cause == vpCauseDeleted {
+	if cause == vpCauseDeleted || cause == vpCauseDeletedSeen {
 		vpAssert("C08.term-ended", s.cb.demotes >= 1) // the vacancy may already have been filled by the instance itself
 	} else {
 		vpAssert("C08.term-ended", !s.e.IsLeader())
@@ -376,4 +380,50 @@ func vpH_C08_T_restart_leftover() {
 	_ = s.e.Stop()
 	vpQuiesce()
 	s.audit("stopped")
+}
+
+// vpH_C08_T_same_cause_twice: two terms of one election object, both ended by the same cause (each cause that
+// leaves the instance running): the second loss of that kind is announced exactly like the first.
+func vpH_C08_T_same_cause_twice() {
+	H := time.Second
+	vpSetOpt("rand-fixed", 1)
+	cause := vpChoose("cause", vpCauseStop)
+	hc := &vpHealth{}
+	vpC08Drain = 0
+	s := vpTermInstance(H, true, true, func(cfg *ElectionConfig) {
+		if cause == vpCauseValidation {
+			cfg.ValidationInterval = H
+		}
+		if cause == vpCauseHealth {
+			cfg.HealthChecker = hc
+			cfg.MaxConsecutiveFailures = 2
+		}
+	})
+	for term := 1; term <= 2; term++ {
+		if !s.e.IsLeader() {
+			vpEndPath("not-leading")
+		}
+		if cause == vpCauseValidation {
+			s.kv.faults = []int{vpFaultHang}
+			s.kv.faultLeft = 100
+			s.kv.faultOps = "update"
+		}
+		d0 := s.cb.demotes
+		s.endTerm(cause)
+		if cause == vpCauseHealth && s.e.IsLeader() && s.cb.demotes == d0 {
+			vpEndPath("health-script-kept-leader")
+		}
+		vpAssert("C08.term-ended", s.cb.demotes >= d0+1)
+		vpAssert("C04.demote-callback", vpImplies(cause == vpCauseValidation, s.cb.demotes >= d0+1))
+		s.audit("after-term")
+		// whoever holds the record goes away; the instance takes over again
+		s.kv.faultLeft = 0
+		s.kv.faults = nil
+		s.st.write("env:cleanup", "delete", nil, true, 0)
+		time.Sleep(H + 200*time.Millisecond)
+		vpQuiesce()
+	}
+	vpCover("C08.same-cause-twice")
+	s.audit("end")
+	_ = s.e.Stop()
 }
